@@ -91,7 +91,10 @@ pub fn budget(prop: &str, tier: &str) -> u64 {
         "thorough" => quick * 16,
         _ => quick,
     };
-    std::env::var("VERIF_RUNS").ok().and_then(|s| s.parse().ok()).unwrap_or(n)
+    let n: u64 = std::env::var("VERIF_RUNS").ok().and_then(|s| s.parse().ok()).unwrap_or(n);
+    // the plain profile re-runs a share of the same indices
+    let share: u64 = std::env::var("VERIF_PLAIN_SHARE").ok().and_then(|s| s.parse().ok()).unwrap_or(1);
+    (n / share.max(1)).max(1)
 }
 
 pub fn profile_name() -> &'static str {
